@@ -409,16 +409,19 @@ void BSLightingShaderProperty::Sync(NiStreamReversible& stream) {
 	}
 
 	if (stream.GetVersion().Stream() > 139) {
-		stream.Sync(bslspShaderType);
+		// The file stores the shader type without the removed Height/Parallax enum value (3).
+		// Keep the old value internally and only convert the value that is read or written.
+		uint32_t fileShaderType = bslspShaderType;
+		if (stream.GetMode() == NiStreamReversible::Mode::Writing && fileShaderType > 3)
+			fileShaderType -= 1;
 
-		// Adjust shader type to old value internally due to removed Height/Parallax enum value (3)
+		stream.Sync(fileShaderType);
+
 		if (stream.GetMode() == NiStreamReversible::Mode::Reading) {
-			if (bslspShaderType > 3)
-				bslspShaderType += 1;
-		}
-		else {
-			if (bslspShaderType >= 3)
-				bslspShaderType -= 1;
+			if (fileShaderType >= 3)
+				fileShaderType += 1;
+
+			bslspShaderType = fileShaderType;
 		}
 	}
 
